@@ -37,6 +37,110 @@ CLAIMED = {
     ),
 }
 
+CLAIMED.update({
+    "C01": (
+        "whole-repository ownership/aliasing analysis of mesh storage on go/ssa (field-based, interprocedural fixpoint; Fresh / Owned / Unknown classes), default-deny write rule in package modeling, hand-off (write-after-ingestion) path rule",
+        "Decides that no write-capable instruction in package modeling acts on storage that may belong to an existing mesh (default-deny: anything not provably freshly allocated fails), that outside "
+        "modeling no write acts on a value that can reach mesh storage (Materials() results, iterator internals, callee parameters fed with mesh storage), that no locally built array or builder-struct field "
+        "is written after it was handed to a mesh, that package-level arrays handed to meshes are never written, and that modeling uses no reflect/unsafe. Because Mesh's storage fields are unexported this "
+        "gives, by induction over operations, 'no public mesh operation writes an array reachable from an existing mesh' for every history and branching order - sufficient as well as necessary within the model. "
+        "Not covered: writes by user code/callbacks, *Material pointees.",
+        "go/types + go/ssa of x/tools v0.29.0; struct fields merged per field object; dynamic callees receiving mesh storage are UNDECIDED (none today); one named exception (obj.Load sets Material pointers of meshes it has just read and not yet returned).",
+        "DESIGN.md 3.1, 4 C01",
+    ),
+    "C04": (
+        "layout tiling (byte ranges per type case), enum-switch tabulation, writer/reader sibling agreement, header/body pairing, index-space typing, endianness selection - def-use and linear-form evaluation on go/ssa over formats/ply",
+        "Decides structural necessary conditions of the PLY round trip for every encoding and option combination: corner texture coordinates fetched by vertex id (IDX-1), binary writers' byte ranges tile the record exactly per scalar type (LAY-1), "
+        "writer and reader agree per scalar type on wire kind and 255-scaling (LAY-2/3), big-endian chosen exactly under binary_big_endian in writer and reader (LAY-5), every built reader's scalarType comes from the header (LAY-7), "
+        "header list types match the bytes written (HDR-1), header counts/properties pair with the body loops (HDR-2), components in axis order (AXIS-1/3), record i to slot i (REC-1), claimed attributes = attributes a writer was added for (CLAIM-1). "
+        "Value equality, precision and number formatting are not decided. One recorded known finding (LAY-7 Vector1 ASCII).",
+        "go/types + go/ssa of x/tools v0.29.0; PLY scalar sizes/aliases from the published format; anchors (codec types) discovered by type/role.",
+        "DESIGN.md 3.6, 4 C04; checker/props/c04/REPORT.md",
+    ),
+    "C05": (
+        "typestate dataflow of the pending-face counter with helper/closure inlining (MAT-1), write-after-hand-off (OWN-2), token/stream/axis/corner tabulation of reader and writer, per-stream index-base rule (BASE-1), material range arithmetic (MAT-2) on go/ssa over formats/obj and formats/txt",
+        "Decides for obj.ReadMesh / obj.WriteMeshes, on every path: the pending face count is stored into the last material range before every hand-off and reset per group; increments and index appends go together; no write after a slice reached a mesh; "
+        "the face-token parser handles v, v/vt, v//vn, v/vt/vn with index-1; each tag arm feeds the right attribute in axis order; triangle slot s comes from field s+1; de-dup key consistency; the writer subscripts the index iterator by positions, writes id+1+exactly one base, "
+        "bases start at 0 and advance per stream by the records emitted, token form selected from the attributes present, material ranges consecutive from 0 by 3*PrimitiveCount with usemtl before the faces. "
+        "Necessary conditions of the round trip for every group/usemtl arrangement and attribute mix; .mtl content, n-gons, negative indices are not covered.",
+        "go/types + go/ssa of x/tools v0.29.0; anchors obj.ReadMesh, obj.WriteMeshes, MeshMaterial fields, txt.Writer methods resolved by name, every other role by def-use.",
+        "DESIGN.md 4 C05; checker/props/c05/REPORT.md",
+    ),
+    "C06": (
+        "path-wise symbolic byte-effect analysis over go/ssa (polynomials with pad4 terms, loop summaries, component-type specialisation) compared with the maintained offset counter and the GLB length law; def-use/dominance rules for view/accessor pairing, index width guard, extension registration, dedup tables",
+        "Decides for every Writer method, path and component type: bytes appended = amount added to bytesWritten (SYM-BYTES); each bufferView's offset is the counter before the advance and its length the advance, accessor count*components*size = view length, wire kind = componentType (VIEW-1); "
+        "GLB magic/version/chunk grammar, chunk length = data+padding = 0 mod 4, total = bytes written on both paths (GLB-1); uint16 indices guarded by vertex count <= 2^16 (WIDTH-1); every extension stored is registered as used (EXT-1/2); stored indices are the positions of elements appended on the same path (REF-1, DEDUP-1); "
+        "buffer length = counter, base64 over the same bytes, min/max over the written values, semantic/component tables per spec, every view starts 4-aligned (ALIGN-1; three recorded known findings). Scene shape is unbounded; values, JSON validity and equal()-based dedup semantics are not decided.",
+        "go/types + go/ssa of x/tools v0.29.0; bitlib write sizes cross-checked against the dependency's method bodies on every run; glTF 2.0 tables frozen from the specification.",
+        "DESIGN.md 4 C06; checker/props/c06/REPORT.md",
+    ),
+    "C07": (
+        "wire sizes from go/types (encoding/binary semantics), symbolic byte count of the write sequence, writer/reader step-sequence agreement, exact-cover decision for affine subscripts, dependency-shape and polynomial direction check of the normals on go/ssa over formats/stl",
+        "Decides exactly, for every n including 0: Header 80 + count 4 + Triangle 50 (12 float32 + uint16, field order Normal, Vertex1..3, Attribute) so stl.Write emits 84 + 50*len(Triangles) bytes on every success path and WriteMesh hands it PrimitiveCount() records; "
+        "Write and Read perform the same step sequence with the same static types and binary.LittleEndian, count written = len, slice read sized by the count read; record i built from Tri(i), Vertex k from corner Pk of Position, axis a from getter a, reader stores Vertex k at 3i+k-1, identity indices over 3n (exact cover); "
+        "facet normal depends on the three corner normals of the same triangle through Normalized, fallback on the three vertices through Cross, direction as polynomial identity up to a positive factor. float32 rounding and normal length are not decided.",
+        "go/types + go/ssa of x/tools v0.29.0; integer overflow and floating-point rounding not modelled.",
+        "DESIGN.md 4 C07; checker/props/c07/REPORT.md",
+    ),
+    "C08": (
+        "offset-accumulation linear forms over the eight build* functions, alias/grammar table completeness, quad-fan tabulation, header-parser arm disjointness, claim bookkeeping, error discipline - def-use and CFG rules on go/ssa over formats/ply readers",
+        "Decides for every header layout in the stated grammar (not sampled headers): the byte offset captured for a component is the sum of the sizes of all preceding properties and is advanced exactly once per property on every path (LAY-4); ASCII columns are ordinals; "
+        "both spec spellings of all eight types map to the right size, every scalar/count/list combination of the grammar has a case in v1..v4 x ASCII/binary (LAY-3); component x is read at xOffset into slot X (AXIS-1); a vector group's type is first-wins with offset reset on mismatch (LAY-9); "
+        "quads yield the fan (0,1,2),(0,2,3) for indices and texcoords in both readers (LAY-8); comment/obj_info/blank/CR handling and property-to-last-element attachment (HDRP-1); exactly one scalar reader per unclaimed property (CLAIM-2/3); record i to slot i (REC-1); no decode error dropped (IO-3). "
+        "Numeric conversion details are not decided. One recorded known finding (LAY-7).",
+        "go/types + go/ssa of x/tools v0.29.0; PLY type table from the published format.",
+        "DESIGN.md 3.6, 4 C08; checker/props/c08/REPORT.md",
+    ),
+    "C10": (
+        "polynomial identities of the worker ranges (telescoping partition) over go/ssa, context-sensitive lockset over worker/coordinator regions, wait-group/channel discipline, sequential-vs-parallel operand agreement, axis tags",
+        "Decides for every element count, pool size >= 1 and schedule: the seven *ParallelWithPoolSize methods' worker ranges partition [0,total) exactly (lo(0)=0, hi(i)=lo(i+1), last hi=total, width floor(total/workers)), the callback gets (i, element i) and results land in dst[i], "
+        "Add dominates go / Done in worker / Wait dominates every use of the result, workers store only to local memory or dst[i]; shortcuts and wrappers delegate with the same arguments; in marching/canvas.go every field written by workers (or written by the coordinator and touched by workers) is accessed only under its mutex, "
+        "jobs are closed after the last send and the symbolic produced count equals the drained count, job operands and the per-block call equal the sequential ones, sample positions are (x,y,z). Partition exactness and lock discipline hold for all inputs and schedules; float accumulation order and the user callback are out of scope.",
+        "go/types + go/ssa of x/tools v0.29.0; Go memory model beyond mutex/channel/wait-group happens-before not modelled.",
+        "DESIGN.md 3.4, 3.7, 4 C10; checker/props/c10/REPORT.md",
+    ),
+    "C11": (
+        "cache-protocol typestate: who-may-write, path automata and dominance over the generic bodies of nodes.Struct / ValueNode / parameters, map-order taint (ORD-1), type-level field-shape check of all node data structs",
+        "Decides the induction step of 'a read returns what evaluation from scratch returns' as local invariants on every path: version bumped exactly once per execution and only there; Process() precedes increment, snapshot and flag reset; every load of the cached value is dominated by Outdated()==false or process(); "
+        "Outdated returns true on nil snapshot, on the re-wire flag, and for every dependency whose Version() differs at the same index or whose State() is not Processed; SetInput always sets the flag; snapshot and comparison enumerate through the same order-deterministic function; "
+        "every node-output reference of the 108 node data types is a shape the reflection helpers can see; Process methods read inputs only through Value(). Graph shape and history are unbounded; nodes that are not functions of their inputs and Alert subscriptions are not covered.",
+        "go/types + go/ssa of x/tools v0.29.0; refutil's reflection writes modelled by a three-entry table.",
+        "DESIGN.md 3.9, 3.10, 4 C11; checker/props/c11/REPORT.md",
+    ),
+    "C12": (
+        "field-coverage analysis of ToJSON/FromJSON pairs with a local object model, provenance calculus (canonical access paths) for decode/encode completeness, map-order taint to the encoder sink over everything reachable from App.Schema()",
+        "Decides: every schema field of every CustomGraphSerialization pair is assigned from receiver state on a feasible path and read back into the same field, every exported receiver field survives; ApplyAppSchema creates and registers every node, replays one SetInput per dependency with that dependency's name/id/port, "
+        "sets every producer, feeds every serialisable node its own Data, returns every error, no early exit; EncodeToAppSchema visits every node and producer and emits one dependency per Dependencies() element; nothing map-ordered reaches the encoder (byte determinism); every schema.App header field is carried both ways. "
+        "Order of array inputs after reload, artifact content, id assignment after deletions and numeric JSON round trips are not decided.",
+        "go/types + go/ssa of x/tools v0.29.0; encoding/json emits maps key-sorted (documented).",
+        "DESIGN.md 3.10, 4 C12; checker/props/c12/REPORT.md",
+    ),
+    "C13": (
+        "context-sensitive lockset over the three entry points of graph.Instance, lock/unlock pairing on every exit, who-may-call over the CHA (quick) / VTA (thorough) call graph, no-copy type check",
+        "Decides that UpdateParameter, ParameterData and Artifact each perform all evaluation-state accesses (ApplyMessage, ToMessage, producer Value(), version counter, node table lookup) inside one critical section of the same mutex field of the same receiver, released on every return and panic, "
+        "that the Instance is never copied, and that no other non-test library call site of the evaluating calls exists outside a held region. One critical section per operation on one mutex is the standard sufficient condition for linearizability with real-time order and gives race freedom among the three, "
+        "for any number of clients and any interleaving. Artifact immutability after unlock and the other server endpoints are not covered.",
+        "go/types + go/ssa + callgraph (cha/vta) of x/tools v0.29.0.",
+        "DESIGN.md 3.7, 4 C13; checker/props/c13/REPORT.md",
+    ),
+    "C14": (
+        "path-sensitive exploration of the SSA CFG from the exhausted outcome of every input call (nil-ness abstract state), error-use analysis, loop progress analysis, pre-sized-array exit analysis, token-count guards - over formats/ply, stl, spz, splat, pts decoders",
+        "Decides, with each read call an obligation (cut positions do not appear in the argument): Scan() in a loop is tested (IO-1); from 'this call came up short' no path reaches a nil-error return except after the record counter reached the declared count or, for the count-less .splat stream, with nothing taken from the failed read (IO-2); "
+        "no error of an input call or decode helper is dropped (IO-3); no reading loop can return to its head without consuming input or advancing its counter (IO-4); raw Read's n is used (IO-5); arrays pre-sized from a declared count are returned only when the filling loop left through its counter and every counted record stored an element (PRE-1/2); "
+        "tokens of a body line are length-tested before being indexed (TOK-1). For the listed formats this is the structural content of the property for all cut positions at once; allocation size, header-text truncation that still parses and gzip framing are not covered.",
+        "go/types + go/ssa of x/tools v0.29.0; io.ReadFull/binary.Read EOF contract and non-nil fmt.Errorf/errors.New assumed.",
+        "DESIGN.md 3.5, 4 C14; checker/props/c14/REPORT.md",
+    ),
+    "C15": (
+        "byte-range tiling and writer/reader agreement of the 32-byte .splat record, inverse-function chain pairing, exact-cover decision for affine plane subscripts with symbolic strides, plane order, sign-extension and dequantisation constants, PLY splat property agreement - on go/ssa",
+        "Decides for every count, SH degree and fractional-bit count: the .splat writer emits 32 bytes per splat whose ranges the reader's constant offsets tile exactly, per attribute and component in axis order, with the reader's value map the reversed chain of inverses of the writer's (Exp/Log, *c//c, +c/-c with equal constants, logistic pair); "
+        "the SPZ header is 16 bytes in the published order, planes are read in the published order, plane sizes 9N/6N, N, 3N, 3N, 3N, 3*N*shDim, every output array is make(..., NumPoints), each plane subscript covers its plane exactly once (per-point SH stride 3*shDim), 24-bit little-endian assembly with sign test on bit 23 and mask 0xff000000, "
+        "SH dimension table {0,3,8,15}, published dequantisation maps, half-float bit fields; the PLY splat export's property names/types match the default reader's. Layout exactness, not value tolerances.",
+        "go/types + go/ssa of x/tools v0.29.0; SPZ/splat layouts frozen from the published formats.",
+        "DESIGN.md 4 C15; checker/props/c15/REPORT.md",
+    ),
+})
+
 NOT_YET = "check not built yet in this round (design in DESIGN.md section 4); not claimed until its rules run clean on the tree"
 NOT_APPLICABLE = {
     "C18": "closure/winding/volume of generated index patterns needs a symbolic edge-pairing proof over all row/column/side counts plus numeric volume; no sound static rule in reach (DESIGN.md §5)",
